@@ -25,7 +25,7 @@ def crate_configs(tier):
 def build_corpus(tier, rng):
     c = Corpus(ID)
     thorough = tier == "thorough"
-    cands = c01.generic_shapes() + [("regression", it) for it in c01.regression()] + [("systematic", it) for it in c01.systematic(rng)] + [("non-ascii-ident", it) for it in c01.nonascii()] + [("long-spelling", it) for it in c01.long_spellings() if not any(m.kind == "phf" for m in it.metas)]
+    cands = c01.generic_shapes() + c01.namesake_items() + [("regression", it) for it in c01.regression()] + [("systematic", it) for it in c01.systematic(rng)] + [("non-ascii-ident", it) for it in c01.nonascii()] + [("long-spelling", it) for it in c01.long_spellings() if not any(m.kind == "phf" for m in it.metas)]
     # names with ESCAPED braces only ({{ }}): no placeholder, so they are in the property's domain and printed verbatim
     cands.append(("escaped", Item("E", [Variant("U", "unit", [], [tos("{{open")]), Variant("T", "tuple", [Field("u8")], [tos("close}}"), ser("c")]),
                                         Variant("N", "named", [Field("u8", "x")], [ser("{{both}}")]), Variant("P", "unit")])))
